@@ -2,7 +2,8 @@
     events.  Property theorems only. *)
 From Coq Require Import List Arith Bool ZArith.
 From Garr Require Import Conc.Conc Pure.F64 Pure.Config Breaker.BreakerModel Breaker.Ref
-  Breaker.ConcBase Breaker.ConcWin Breaker.ConcCount Breaker.ConcFresh Breaker.SeqRefine Breaker.WindowSeq.
+  Breaker.ConcBase Breaker.ConcWin Breaker.ConcCount Breaker.ConcFresh Breaker.SeqRefine Breaker.WindowSeq
+  Breaker.ConcGhost Breaker.ConcUpper Breaker.ConcOwn Breaker.ConcQuiescent.
 Import ListNotations.
 
 (** Concurrent reporters (any number, any interleaving, any ticker stream):
@@ -43,3 +44,120 @@ Theorem C10_sequential_exact : forall cfg nl ticks ops,
     rets e = xs /\ b_ticks (c_sh c) = rw_ticks w /\ b_log (c_sh c) = [].
 Proof. exact window_refines_reference. Qed.
 Print Assumptions C10_sequential_exact.
+
+(** ---- concurrent upper bound and exactness after quiescence ---- *)
+
+(** Vocabulary (all read off the execution log [steps_of], see ConcUpper.v):
+    - [tick_read tid L]      the ticker reading of the last window report thread [tid] started in [L];
+    - [recent_adds cfg succ t L]  number of add steps of outcome [succ] in [L] whose target bucket
+                             has timestamp >= t - window ([recent_adds_spec] spells it out);
+    - [recent_adds_on cfg succ t ids L]  the same, restricted to the buckets [ids];
+    - [roll_ids x]           the live reservoir cells of window [x] followed by its current bucket. *)
+
+(** (A) Any number of concurrent reporters, any ticker stream, any interleaving: a count
+    returned by OnSuccess / OnFailure of the window (the thread rolled the bucket after
+    reading tick t) is bounded by the success / failure add steps executed BEFORE the return
+    on buckets whose interval began inside the window of t.  Nothing invented, nothing
+    counted twice, nothing older than the window. *)
+Theorem C10_count_upper_bound : forall cfg nl ticks progs sched j cj tid cj' ej o sc fc,
+  (Z.of_nat (length (concat progs)) < 2 ^ 62)%Z ->
+  let log := steps_of (breaker cfg nl) (bcfg0 nl ticks progs) sched in
+  nth_error log j = Some (cj, tid) ->
+  step_thread (breaker cfg nl) cj tid = Some (cj', ej) ->
+  In (ERet tid o (BCount (Some (sc, fc)))) ej -> o <> WCount ->
+  exists t, tick_read tid (firstn j log) = Some t /\
+    (0 <= sc <= Z.of_nat (recent_adds cfg true t (firstn j log)))%Z /\
+    (0 <= fc <= Z.of_nat (recent_adds cfg false t (firstn j log)))%Z.
+Proof. exact returned_count_upper_bound. Qed.
+Print Assumptions C10_count_upper_bound.
+
+(** the same at the program counter that stores and delivers the count (also covers the
+    counts delivered to the breaker and its listeners: any continuation [k]) *)
+Theorem C10_count_upper_bound_pc : forall cfg nl ticks progs sched j cj tid w k sc fc,
+  (Z.of_nat (length (concat progs)) < 2 ^ 62)%Z ->
+  let log := steps_of (breaker cfg nl) (bcfg0 nl ticks progs) sched in
+  nth_error log j = Some (cj, tid) ->
+  nth_error (pcs cj) tid = Some (WSnapStore w k sc fc) ->
+  exists t, tick_read tid (firstn j log) = Some t /\
+    (0 <= sc <= Z.of_nat (recent_adds cfg true t (firstn j log)))%Z /\
+    (0 <= fc <= Z.of_nat (recent_adds cfg false t (firstn j log)))%Z.
+Proof. exact count_upper_bound. Qed.
+
+(** sharper: only recent adds on the buckets archived in the reservoir of the window being
+    rolled can be counted (no event of another window, none of a bucket not yet archived) *)
+Theorem C10_count_upper_bound_window : forall cfg nl ticks progs sched j cj tid w k sc fc,
+  (Z.of_nat (length (concat progs)) < 2 ^ 62)%Z ->
+  let log := steps_of (breaker cfg nl) (bcfg0 nl ticks progs) sched in
+  nth_error log j = Some (cj, tid) ->
+  nth_error (pcs cj) tid = Some (WSnapStore w k sc fc) ->
+  exists t x, tick_read tid (firstn j log) = Some t /\ nth1 (b_wins (c_sh cj)) w = Some x /\
+    (0 <= sc <= Z.of_nat (recent_adds_on cfg true t (map fst (w_cells x)) (firstn j log)))%Z /\
+    (0 <= fc <= Z.of_nat (recent_adds_on cfg false t (map fst (w_cells x)) (firstn j log)))%Z.
+Proof. exact count_upper_bound_window. Qed.
+
+(** Count(): the snapshot never exceeds the adds executed so far *)
+Theorem C10_snapshot_upper_bound : forall cfg nl ticks progs sched w x,
+  (Z.of_nat (length (concat progs)) < 2 ^ 62)%Z ->
+  let log := steps_of (breaker cfg nl) (bcfg0 nl ticks progs) sched in
+  nth1 (b_wins (c_sh (final (breaker cfg nl) (bcfg0 nl ticks progs) sched))) w = Some x ->
+  (0 <= fst (w_snap x) <= Z.of_nat (total_adds true log))%Z /\
+  (0 <= snd (w_snap x) <= Z.of_nat (total_adds false log))%Z.
+Proof. exact snapshot_upper_bound. Qed.
+
+(** bucket timestamps are immutable *)
+Theorem C10_bucket_ts_immutable : forall cfg nl sched c b bk,
+  nth1 (b_buckets (c_sh c)) b = Some bk ->
+  exists bk', nth1 (b_buckets (c_sh (final (breaker cfg nl) c sched))) b = Some bk' /\ bk_ts bk' = bk_ts bk.
+Proof. exact bucket_ts_immutable. Qed.
+
+(** (B) From any configuration reached by a concurrent execution in which every call has
+    returned, a reporter whose reading makes it roll returns EXACTLY the kept buckets of
+    reservoir + current bucket, which is EXACTLY the number of add steps the log contains
+    for them (whoever executed them). *)
+Theorem C10_quiescent_roll_exact : forall cfg nl ticks progs sched r th o rest x cb,
+  (Z.of_nat (length (concat progs)) < 2 ^ 62)%Z ->
+  let c := final (breaker cfg nl) (bcfg0 nl ticks progs) sched in
+  let log := steps_of (breaker cfg nl) (bcfg0 nl ticks progs) sched in
+  (forall th', In th' (c_thr c) -> t_cur th' = None) ->
+  nth_error (c_thr c) r = Some th -> t_dead th = false -> t_prog th = o :: rest ->
+  (o = WSuccess \/ o = WFailure) ->
+  nth1 (b_wins (c_sh c)) 1 = Some x -> nth1 (b_buckets (c_sh c)) (w_cur x) = Some cb ->
+  let t := hd 0%Z (b_ticks (c_sh c)) in
+  (bk_ts cb <= t)%Z -> (wrap64 (bk_ts cb + interval cfg) <= t)%Z ->
+  exists n c' S F,
+    run (breaker cfg nl) c (repeat r n) = (c', [EInv r o; ERet r o (BCount (Some (S, F)))]) /\
+    (S, F) = roll_count cfg (c_sh c) x t /\
+    S = Z.of_nat (recent_adds_on cfg true t (roll_ids x) log) /\
+    F = Z.of_nat (recent_adds_on cfg false t (roll_ids x) log).
+Proof. exact quiescent_roll_exact. Qed.
+Print Assumptions C10_quiescent_roll_exact.
+
+(** nothing is lost: at quiescence every logged add sits in a current or archived bucket ... *)
+Theorem C10_quiescent_adds_archived : forall cfg nl ticks progs sched e sc b ts,
+  let c := final (breaker cfg nl) (bcfg0 nl ticks progs) sched in
+  (forall th, In th (c_thr c) -> t_cur th = None) ->
+  In e (alog (steps_of (breaker cfg nl) (bcfg0 nl ticks progs) sched)) -> snd e = AAdd sc b ts ->
+  exists w x, nth1 (b_wins (c_sh c)) w = Some x /\ (b = w_cur x \/ In b (map fst (w_cells x))).
+Proof. exact quiescent_adds_archived. Qed.
+
+(** ... so with one window and nothing inside the window trimmed, the roll reports ALL the
+    recent adds of the log: the bound (A) is attained *)
+Theorem C10_quiescent_roll_exact_untrimmed : forall cfg nl ticks progs sched r th o rest x cb,
+  (Z.of_nat (length (concat progs)) < 2 ^ 62)%Z ->
+  let c := final (breaker cfg nl) (bcfg0 nl ticks progs) sched in
+  let log := steps_of (breaker cfg nl) (bcfg0 nl ticks progs) sched in
+  (forall th', In th' (c_thr c) -> t_cur th' = None) ->
+  nth_error (c_thr c) r = Some th -> t_dead th = false -> t_prog th = o :: rest ->
+  (o = WSuccess \/ o = WFailure) ->
+  nth1 (b_wins (c_sh c)) 1 = Some x -> nth1 (b_buckets (c_sh c)) (w_cur x) = Some cb ->
+  let t := hd 0%Z (b_ticks (c_sh c)) in
+  (bk_ts cb <= t)%Z -> (wrap64 (bk_ts cb + interval cfg) <= t)%Z ->
+  length (b_wins (c_sh c)) = 1 ->
+  (forall b bk, In (b, false) (w_cells x) -> nth1 (b_buckets (c_sh c)) b = Some bk ->
+                (bk_ts bk < cut cfg t)%Z) ->
+  exists n c',
+    run (breaker cfg nl) c (repeat r n) =
+      (c', [EInv r o; ERet r o (BCount (Some (Z.of_nat (recent_adds cfg true t log),
+                                               Z.of_nat (recent_adds cfg false t log))))]).
+Proof. exact quiescent_roll_exact_untrimmed. Qed.
+Print Assumptions C10_quiescent_roll_exact_untrimmed.
